@@ -599,7 +599,11 @@ func genRequest(g *gen, c *Cfg, o *relayGenOpts, learnedHosts []string) Op {
 		if i > 0 {
 			tr = g.pick("UDP", "TCP", "UDP", "TLS")
 		}
-		vias = append(vias, viaEntry(tr, host, port, params))
+		if i > 0 && g.chance(4) {
+			vias = append(vias, viaEntryZ(tr, host, port, params))
+		} else {
+			vias = append(vias, viaEntry(tr, host, port, params))
+		}
 		if net.ParseIP(host) != nil && host != srcIP {
 			viaHostList = append(viaHostList, host)
 		}
@@ -673,6 +677,7 @@ func genResponse(g *gen, c *Cfg, o *relayGenOpts) Op {
 	srcPort := g.pick2(5070, 5060, 5080)
 	nv := 1 + g.intn(6)
 	var vias []string
+	towardsBackend := false
 	for i := 0; i < nv; i++ {
 		var host string
 		var port int
@@ -682,8 +687,14 @@ func genResponse(g *gen, c *Cfg, o *relayGenOpts) Op {
 				host, port = "10.7.7.7", 5060 // not even ours: still popped
 			}
 		} else {
-			host = g.pick(topo.uas[g.intn(len(topo.uas))], topo.hops[g.intn(len(topo.hops))], "nh1.hops.test", "nh2.hops.test")
+			host = g.pick(topo.uas[g.intn(len(topo.uas))], topo.hops[g.intn(len(topo.hops))], "nh1.hops.test", "nh2.hops.test", "nh3.Hops.Test")
 			port = g.pick2(0, 5060, 5090, 5080, 40123, 65535)
+			if i == 1 && len(l.Backends) > 0 && g.chance(12) {
+				// the answer travels towards one of the listen entry's own backends (it answers a request the backend sent)
+				towardsBackend = true
+				ba := udpAddr(strings.SplitN(l.Backends[g.intn(len(l.Backends))], "://", 2)[1])
+				host, port = ba.IP.String(), ba.Port
+			}
 		}
 		params := ";branch=z9hG4bK" + g.alnum(6, 12)
 		tr := g.pick("UDP", "UDP", "UDP", "TCP")
@@ -708,16 +719,27 @@ func genResponse(g *gen, c *Cfg, o *relayGenOpts) Op {
 		if g.chance(20) {
 			params += ";" + g.alnum(1, 5) + "=" + g.paramValue()
 		}
-		vias = append(vias, viaEntry(tr, host, port, params))
+		if i > 0 && g.chance(4) {
+			vias = append(vias, viaEntryZ(tr, host, port, params))
+		} else {
+			vias = append(vias, viaEntry(tr, host, port, params))
+		}
 	}
 	status := 100 + g.intn(600)
 	if g.chance(50) {
 		status = g.pick2(100, 180, 183, 200, 202, 302, 404, 486, 500, 603)
 	}
 	method := g.method()
+	if towardsBackend && g.chance(60) {
+		method = g.pick("SUBSCRIBE", "INVITE", "NOTIFY")
+	}
+	respToTag := g.tagValue()
+	if g.chance(15) || status == 100 && g.chance(60) {
+		respToTag = "" // an answer without a To tag (100 Trying, or an element that adds none)
+	}
 	core := []sipwire.Header{
 		{Name: g.pick("From", "f"), Value: g.fromTo("sip:"+g.user0()+"@caller.test", g.tagValue(), o.rich)},
-		{Name: g.pick("To", "t"), Value: g.fromTo("sip:"+g.user0()+"@callee.test", g.tagValue(), o.rich)},
+		{Name: g.pick("To", "t"), Value: g.fromTo("sip:"+g.user0()+"@callee.test", respToTag, o.rich)},
 		{Name: g.pick("Call-ID", "i"), Value: "cid-" + id},
 		{Name: "CSeq", Value: strconv.Itoa(1+g.intn(1000)) + " " + method},
 		{Name: "X-Sim-Id", Value: id},
